@@ -134,6 +134,86 @@ func (st *Stats) record(prof string, c *pvcase.Case, cg *caseGen) {
 		}
 	}
 	st.Alphabet[fmt.Sprint(len(cg.alpha))]++
+	st.InputSource[cg.inputSrc]++
+}
+
+func newGenerator(seed, id0 uint64, variants string) (*generator, error) {
+	g := &generator{r: rand.New(rand.NewPCG(seed, 0x70767667656e)), st: newStats(), nextID: id0}
+	if variants == "" {
+		g.variants = pvcase.AllVariants()
+		return g, nil
+	}
+	for _, v := range strings.Split(variants, ",") {
+		f, err := pvcase.ParseVariant(strings.TrimSpace(v))
+		if err != nil {
+			return nil, err
+		}
+		g.variants = append(g.variants, f)
+	}
+	return g, nil
+}
+
+// profiles resolves a -profile argument to a weighted list of basic profiles.
+func (g *generator) profiles(profile string) ([]wk, error) {
+	var profs []wk
+	if profile == "mixed" {
+		for _, p := range mixedWeights {
+			if len(g.variantsFor(p.k)) > 0 {
+				profs = append(profs, p)
+			}
+		}
+		if len(profs) == 0 {
+			return nil, fmt.Errorf("no profile can run on the given variants")
+		}
+		return profs, nil
+	}
+	ok := false
+	for _, p := range profileNames {
+		ok = ok || p == profile
+	}
+	if !ok {
+		return nil, fmt.Errorf("unknown profile %q", profile)
+	}
+	if len(g.variantsFor(profile)) == 0 {
+		return nil, fmt.Errorf("profile %s cannot run on any of the given variants", profile)
+	}
+	return []wk{{profile, 1}}, nil
+}
+
+// emit generates n cases and hands them to out in order.
+func (g *generator) emit(profs []wk, n int, out func(c *pvcase.Case, prof string)) {
+	tot := 0
+	for _, p := range profs {
+		tot += p.w
+	}
+	pickProfile := func() string {
+		x := g.r.IntN(tot)
+		for _, p := range profs {
+			if x < p.w {
+				return p.k
+			}
+			x -= p.w
+		}
+		panic("unreachable")
+	}
+	written := 0
+	for written < n {
+		prof := pickProfile()
+		cs, cg := g.genCase(prof)
+		for i, c := range cs {
+			if written == n {
+				break // a twin that does not fit any more
+			}
+			c.ID = g.nextID
+			g.nextID++
+			g.st.record(prof, c, cg)
+			if i > 0 {
+				g.st.Twins++
+			}
+			out(c, prof)
+			written++
+		}
+	}
 }
 
 func main() {
@@ -157,54 +237,13 @@ func main() {
 		os.Exit(2)
 	}
 
-	g := &generator{r: rand.New(rand.NewPCG(*seed, 0x70767667656e)), st: newStats(), nextID: *id0}
-	if *variants == "" {
-		g.variants = pvcase.AllVariants()
-	} else {
-		for _, v := range strings.Split(*variants, ",") {
-			f, err := pvcase.ParseVariant(strings.TrimSpace(v))
-			if err != nil {
-				usage("%v", err)
-			}
-			g.variants = append(g.variants, f)
-		}
+	g, err := newGenerator(*seed, *id0, *variants)
+	if err != nil {
+		usage("%v", err)
 	}
-	var profs []wk
-	if *profile == "mixed" {
-		for _, p := range mixedWeights {
-			if len(g.variantsFor(p.k)) > 0 {
-				profs = append(profs, p)
-			}
-		}
-	} else {
-		ok := false
-		for _, p := range profileNames {
-			ok = ok || p == *profile
-		}
-		if !ok {
-			usage("unknown profile %q", *profile)
-		}
-		if len(g.variantsFor(*profile)) == 0 {
-			usage("profile %s has no variant among %s", *profile, *variants)
-		}
-		profs = []wk{{*profile, 1}}
-	}
-	if len(profs) == 0 {
-		usage("no profile can run on variants %s", *variants)
-	}
-	pickProfile := func() string {
-		tot := 0
-		for _, p := range profs {
-			tot += p.w
-		}
-		x := g.r.IntN(tot)
-		for _, p := range profs {
-			if x < p.w {
-				return p.k
-			}
-			x -= p.w
-		}
-		panic("unreachable")
+	profs, err := g.profiles(*profile)
+	if err != nil {
+		usage("%v", err)
 	}
 
 	w := bufio.NewWriterSize(os.Stdout, 1<<20)
@@ -222,27 +261,12 @@ func main() {
 		index = bufio.NewWriter(f)
 		defer index.Flush()
 	}
-	written := 0
-	for written < *n {
-		prof := pickProfile()
-		cs, cg := g.genCase(prof)
-		for i, c := range cs {
-			if written == *n {
-				break // a twin that does not fit any more
-			}
-			c.ID = g.nextID
-			g.nextID++
-			g.st.record(prof, c, cg)
-			if i > 0 {
-				g.st.Twins++
-			}
-			fmt.Fprintln(w, c.String())
-			if index != nil {
-				fmt.Fprintf(index, "%d %s\n", c.ID, prof)
-			}
-			written++
+	g.emit(profs, *n, func(c *pvcase.Case, prof string) {
+		fmt.Fprintln(w, c.String())
+		if index != nil {
+			fmt.Fprintf(index, "%d %s\n", c.ID, prof)
 		}
-	}
+	})
 	if *statsOut != "" {
 		b, err := json.MarshalIndent(g.st, "", "  ")
 		if err != nil {
